@@ -40,7 +40,7 @@ ASSUMPTIONS = [
     "file form: extra columns are floats (the reader's documented behaviour)",
 ]
 REQUIRED = ["tree_form_checked", "table_form_checked", "file_form_checked", "idempotence_checked",
-            "tap_sort_nodes_impl", "is_sorted_true", "tree_root_not_at_0"]
+            "tap_sort_nodes_impl", "is_sorted_true", "is_sorted_on_inputs", "tree_root_not_at_0"]
 FLOOR = {"quick": 1000, "thorough": 20000}
 SHARDS = {"quick": 8, "thorough": 16}
 
@@ -132,6 +132,17 @@ def _tree_form(ctx, case, spec):
                              "sort_tree: parent relation differs under the tag bijection", case)
     if su.is_sorted((out.id(), out.pid())) is not True:
         return ctx.violation("is_sorted-false", "swc_utils.is_sorted(result) is not True", case)
+    # is_sorted on the *input* numbering, as arrays and as plain lists: true exactly when every
+    # parent id is smaller than its child's
+    truth = bool(np.all(tree.pid() < tree.id()))
+    for form, topo_ in (("arrays", (tree.id(), tree.pid())),
+                        ("lists", (tree.id().tolist(), tree.pid().tolist()))):
+        ans = su.is_sorted(topo_)
+        ctx.count("is_sorted_on_inputs")
+        if bool(ans) != truth:
+            return ctx.violation("is_sorted-wrong", f"is_sorted({form}) = {ans} on the input "
+                                                    f"numbering, parents precede children: {truth}",
+                                 case)
     ctx.count("is_sorted_true")
     again = sort_tree(out)
     r = _check_sorted_result(again.id(), again.pid(), "sort_tree twice") or _idempotent(
